@@ -1,11 +1,11 @@
 SPECIFICATION Spec
 CONSTANTS MaxDepth = 3
-  Families <- FamT_C
+  Families <- FamNoRepass
   StoreByCopy = TRUE
   TailKeepsSets = TRUE
   SplitContinues = TRUE
   SkipEmpty = TRUE
   SplitCachesExport = FALSE
-  SrcFRepass = TRUE
-INVARIANT Emitted
+  SrcFRepass = FALSE
+INVARIANT SeenIsExpected
 CHECK_DEADLOCK FALSE
